@@ -80,6 +80,15 @@ theorem label_test_exact (u : RxUse) (a b a' : Cls) (e : EndKind)
   | nil => simp [Spec.label]
   | cons x r => simp only [spec_label_cons, ha, e1, e2]
 
+theorem label_test_exact_bos (u : RxUse) (a b a' : Cls) (e : EndKind)
+    (hrx : u.rx = shapeLabelBos a b a' 61 e) (he : endExact e u.mode = true)
+    (ha : ∀ c, inCls a c = edgeChar c) (hb : ∀ c, inCls b c = Spec.labelChar c)
+    (ha' : ∀ c, inCls a' c = edgeChar c) (s : Str) : u.test s = Spec.label s := by
+  have := label_test_exact ⟨shapeLabel a b a' 61 e, u.mode⟩ a b a' e rfl he ha hb ha' s
+  rw [← this]
+  unfold RxUse.test
+  rw [hrx, shapeLabelBos_accepts a b a' 61 e u.mode he]
+
 /-! ## host names -/
 
 theorem splitOn_ne_nil (sep : Nat) (s : Str) : splitOn sep s ≠ [] := by
